@@ -21,16 +21,18 @@ Definition mem (x : N) (l : list N) : bool := existsb (N.eqb x) l.
 
 (* ---- signature_info ---- *)
 Inductive other := NoNames | AnyName | Names (l : list N).
-Record info := { min_args : nat; max_args : option nat; required_names : list N; other_names : other }.
+Record info := { min_args : nat; max_args : option nat; required_names : list N; other_names : other;
+                 required_kwonly : list N }.
 
 Definition signature_info (s : sig) : info :=
   {| min_args := count (fun p => is_positional p && negb (has_default p)) s;
      max_args := if has VP s then None else Some (count is_positional s);
-     required_names := map pname (filter (fun p => is_kind PK p && negb (has_default p)) s);
+     required_names := map pname (filter (fun p => (is_kind PK p || is_kind KO p) && negb (has_default p)) s);
      other_names :=
        if has PO s then NoNames
        else if has VK s then AnyName
-       else Names (map pname (filter (fun p => (is_kind PK p && has_default p) || is_kind KO p) s)) |}.
+       else Names (map pname (filter (fun p => (is_kind PK p || is_kind KO p) && has_default p) s));
+     required_kwonly := map pname (filter (fun p => is_kind KO p && negb (has_default p)) s) |}.
 
 (* ---- handler_invocation: Some code = RPCError(code), None = an invocation is returned ---- *)
 Inductive call := ByPos (n : nat) | ByName (given : list N).
@@ -42,7 +44,8 @@ Definition accept (i : info) (c : call) : bool :=
   match c with
   | ByPos n =>
       negb (n <? min_args i) &&
-      match max_args i with None => true | Some m => negb (m <? n) end
+      match max_args i with None => true | Some m => negb (m <? n) end &&
+      match required_kwonly i with [] => true | _ => false end     (* they can only be passed by name *)
   | ByName given =>
       match other_names i with
       | NoNames => false
